@@ -4,6 +4,8 @@ Reference-model monitor on ``program.variables`` and on the arguments delivered
 for every in-range index ``A[k]``; negative cases (ragged rows, contradicted
 shape incl. transposed declarations of equal size) must be refused.
 """
+import os
+
 from .. import common, content, gen
 
 ID = "C05"
@@ -150,7 +152,7 @@ def check_text(ctx, text, tags=(), expect_negative=False):
         return
     ref = kind[1]
     nt = any((getattr(v, "shape", (0, 0))[0] >= 2 and v.shape[1] >= 2) or (hasattr(v, "has_sym") and v.has_sym()) for v in ref.vars.values() if hasattr(v, "rows"))
-    ctx.case(text, nt, tags=[f for f in ref.features if f.startswith(("scalar", "array", "expr:arrayidx"))] + list(tags))
+    ctx.case(text, nt, tags=[f for f in ref.features if f.startswith(("scalar", "array", "expr:arrayidx", "int<-"))] + list(tags))
     ctx.sample({"positive": text}, limit=1)
     prog, exc = common.real_loads(text)
     if exc is not None:
@@ -162,6 +164,61 @@ def check_text(ctx, text, tags=(), expect_negative=False):
         d.append(("variables", "variable-names", str(sorted(ref.vars)), str(sorted(c["variables"]))))
     if d:
         ctx.violation(common.diff_key(d), common.diff_text(d), witness)
+
+
+def check_with_include(ctx, text, rng):
+    """The same declarations in a script that also includes (and perhaps applies) another program, read with load():
+    the variables of the including script are its own declarations, with their types, layout and shape."""
+    import shutil
+    import tempfile
+
+    from . import c07
+
+    lines = text.split("\n")
+    try:
+        at = next(i for i, ln in enumerate(lines) if ln.startswith("version")) + 1
+    except StopIteration:
+        return ctx.out_of_domain("no version line")
+    while at < len(lines) and lines[at].startswith(("target", "type")):
+        at += 1
+    inc_name = "Inc_%d" % rng.randint(0, 99)
+    lines.insert(at, 'include "lib/inc.xbb"')
+    if rng.random() < 0.6:
+        lines = [ln for ln in lines] + ["%s | [%d, %d]" % (inc_name, rng.randint(0, 3), rng.randint(4, 8))]
+        while lines and lines[-2] == "":
+            del lines[-2]
+    main = "\n".join(ln for ln in lines if ln is not None)
+    if not main.endswith("\n"):
+        main += "\n"
+    files = {"main.xbb": main,
+             "lib/inc.xbb": "name %s\nversion 1.0\n\nfloat inner_%d = 0.5\nint array InnerArr =\n    1, 2\nSgate(inner_%d) | 3\nBSgate | [3, 5]\n" % (inc_name, rng.randint(0, 9), 0)}
+    files["lib/inc.xbb"] = files["lib/inc.xbb"].replace("Sgate(inner_0)", "Sgate(0.25)")
+    root = os.path.realpath(tempfile.mkdtemp(prefix="bbv-c05-"))
+    try:
+        try:
+            c07.materialise(root, files)
+        except UnicodeEncodeError:
+            return ctx.out_of_domain("include lane writes ASCII files only")
+        k = c07.ref_of(files, "main.xbb", root)
+        if k[0] != "ok":
+            return ctx.out_of_domain("include lane: %s" % (k[0] if k[0] != "ood" else k[1].split(" (")[0]))
+        ref = k[1]
+        ctx.case("include:" + main, True, tags=["with-include"])
+        witness = {"files": files, "main": "main.xbb"}
+        import blackbird
+
+        try:
+            prog = blackbird.load(os.path.join(root, "main.xbb"))
+        except Exception as exc:
+            return ctx.violation("include:raises:" + common.exc_key(exc), "load() of the script with an include raised %s" % common.exc_text(exc), witness)
+        c = content.program_content(prog)
+        d = content.diff_ref(ref, c, variables=True, seed="C05")
+        if set(c["variables"]) != set(ref.vars):
+            d.append(("variables", "variable-names", str(sorted(ref.vars)), str(sorted(c["variables"]))))
+        if d:
+            ctx.violation("include:" + common.diff_key(d), common.diff_text(d), witness)
+    finally:
+        shutil.rmtree(root, ignore_errors=True)
 
 
 def run(ctx):
@@ -179,6 +236,8 @@ def run(ctx):
             else:
                 text, G = build_positive(rng, g)
                 check_text(ctx, text)
+                if i % 8 == 3 and common.classify(text)[0] == "ok":
+                    check_with_include(ctx, text, ctx.rng("inc", i))
         except RuntimeError:
             ctx.out_of_domain("generator gave up")
 
